@@ -9,6 +9,7 @@ package main
 // The only atomics are the mailbox pair of §4.2.
 
 import (
+	"bytes"
 	"fmt"
 	"reflect"
 	"strconv"
@@ -420,7 +421,7 @@ func (w *world) execOp(t int, op *Op, in *slotVal) (res opResult, out slotVal) {
 	}
 	// input kind checks: an operation whose input is undefined or of the wrong kind is skipped
 	switch k {
-	case opMarshal, opSize, opDSSRC, opString, opFmtV, opFmtPV, opHeader, opLen, opValidate, opCNAME, opMarshalTo, opBlockDSSRC, opMutate:
+	case opMarshal, opSize, opDSSRC, opString, opFmtV, opFmtPV, opHeader, opLen, opValidate, opCNAME, opMarshalTo, opBlockDSSRC, opMutate, opVolume:
 		if !in.def || in.isB || in.isL || in.pkt == nil || reflect.ValueOf(in.pkt).IsNil() {
 			res.skipped = true
 			return
@@ -438,7 +439,7 @@ func (w *world) execOp(t int, op *Op, in *slotVal) (res opResult, out slotVal) {
 	}
 
 	mask := false
-	if k == opMarshal && reachesXR(in.pkt) {
+	if (k == opMarshal || k == opVolume) && reachesXR(in.pkt) {
 		mask = true
 	}
 	if k == opMarshalList && listReachesXR(in.l) {
@@ -451,6 +452,8 @@ func (w *world) execOp(t int, op *Op, in *slotVal) (res opResult, out slotVal) {
 	}
 
 	switch k {
+	case opVolume:
+		w.volume(t, op, in, &res)
 	case opMarshal:
 		p := in.pkt
 		guarded(&res, func() {
@@ -737,7 +740,9 @@ func copyExported(dv, sv reflect.Value, keepXRHeader bool) {
 // character of a text, one octet of a byte slice, one element of a list), chosen by the seed: the
 // caller-side edit that turns a value into a near twin of itself.  XRHeader fields are left alone
 // (derived state), and lengths never change, so size-related fingerprints stay the same.
-func tweakPacket(p rtcp.Packet, seed uint64) {
+// packetLeaves returns the settable exported scalar and string leaves of a packet (at most 64 elements per list; XR
+// headers excluded); slices on the way are replaced by fresh copies first (see below).
+func packetLeaves(p rtcp.Packet) []reflect.Value {
 	var leaves []reflect.Value
 	var walk func(v reflect.Value, depth int)
 	walk = func(v reflect.Value, depth int) {
@@ -782,6 +787,11 @@ func tweakPacket(p rtcp.Packet, seed uint64) {
 		}
 	}
 	walk(reflect.ValueOf(p), 0)
+	return leaves
+}
+
+func tweakPacket(p rtcp.Packet, seed uint64) {
+	leaves := packetLeaves(p)
 	if len(leaves) == 0 {
 		return
 	}
@@ -1353,3 +1363,239 @@ func runReference(s *RunSpec) *world {
 }
 
 var _ = hook.OpOnly
+
+// volume is the body of opVolume: N library calls in a row.  Clause c says it all: what a call returns does not
+// depend on the calls before it, however many - a counter that wraps, a table that fills up, an arena that comes
+// round, a digest that collides only show after tens of thousands of calls or values.  Three variants (op.Seed % 3):
+//
+//	0  encode-heavy repetition on the packet and a near twin of it, alternating: every result equals the first of its kind
+//	1  decode-heavy repetition of the first encoding; the first decoded packet is kept and must not change
+//	2  distinct values: one leaf of a private copy runs through N different values (texts of equal length, consecutive
+//	   integers); each value is encoded and decoded; the sum of per-value digests is the result, so the order of the
+//	   values must not matter - the history-free twin process of O8 walks them backwards
+//
+// Nothing is retained but first results and one decoded packet.
+func (w *world) volume(t int, op *Op, in *slotVal, res *opResult) {
+	n := op.N
+	if raceBuild && n > 24000 {
+		n = 24000 + n%1000 // the race build is there for O1; quantities are the plain build's business
+	}
+	variant := int(op.Seed % 3)
+	var twin rtcp.Packet
+	if in.pv.gen && !in.shared {
+		if tw := cloneIso(in); tw.pkt != nil {
+			twin = tw.pkt
+		}
+	}
+	var leaf reflect.Value
+	if variant == 2 {
+		if twin == nil {
+			variant = 0
+		} else {
+			var wide []reflect.Value
+			for _, l := range packetLeaves(twin) {
+				switch l.Kind() {
+				case reflect.String:
+					if l.Len() >= 6 {
+						wide = append(wide, l)
+					}
+				case reflect.Uint32, reflect.Uint64, reflect.Uint16:
+					wide = append(wide, l)
+				}
+			}
+			if len(wide) == 0 {
+				variant = 0
+			} else {
+				leaf = wide[int((op.Seed/3)%uint64(len(wide)))]
+			}
+		}
+	}
+	if variant != 2 && twin != nil {
+		tweakPacket(twin, op.Seed)
+	}
+	fail := func(what string, it int, exp, act string) {
+		if !res.incons {
+			res.incons = true
+			res.pre, res.post = what+" (first call): "+exp, what+fmt.Sprintf(" (call %d of %d): ", it, n)+act
+		}
+	}
+	yield := func(it int) {
+		if w.conc && it&1023 == 1023 {
+			schedOpBoundary(t, -1) // let the other tasks in: the calls of several tasks interleave in blocks of 1024
+		}
+	}
+	var kept rtcp.Packet // the first packet decoded in this operation, as returned
+	var keptDump string
+	var sum uint64
+
+	switch variant {
+	case 2:
+		base := uint64(0)
+		var text []byte
+		if leaf.Kind() == reflect.String {
+			text = []byte(leaf.String())
+		} else {
+			base = leaf.Uint()
+		}
+		guarded(res, func() {
+			for k := 0; k < n; k++ {
+				it := k
+				if volumeBackwards {
+					it = n - 1 - k
+				}
+				if text != nil {
+					x := uint64(it)
+					for j := len(text) - 1; j >= 0 && j >= len(text)-7; j-- {
+						text[j] = "abcdefghijklmnopqrstuvwxyz012345"[x&31]
+						x >>= 5
+					}
+					leaf.SetString(string(text))
+				} else {
+					leaf.SetUint(base + uint64(it))
+				}
+				b, err := vopMarshal(twin)
+				h := fnvBytes(0xcbf29ce484222325^uint64(it)*0x9E3779B97F4A7C15, b)
+				if err != nil {
+					h ^= 0x3E44
+				} else if len(b) > 0 {
+					q := newOfKind(dispatchKind(b))
+					derr := vopUnmarshalTyped(q, b)
+					h = fnv(h, dumpSem(q, false))
+					if derr != nil {
+						h ^= 0xDE44
+					}
+					if kept == nil && it == 0 {
+						kept, keptDump = q, dumpSem(q, true)
+					}
+				}
+				sum += h
+				yield(k)
+			}
+		})
+		res.addInt(int64(sum))
+	case 1:
+		var enc []byte
+		var first string
+		guarded(res, func() {
+			b, err := vopMarshal(in.pkt)
+			if err != nil || len(b) == 0 {
+				return
+			}
+			enc = append([]byte(nil), b...)
+			for it := 0; it < n && !res.incons; it++ {
+				q := newOfKind(dispatchKind(enc))
+				_ = vopUnmarshalTyped(q, enc)
+				d := dumpSem(q, false)
+				if it == 0 {
+					first, kept, keptDump = d, q, dumpSem(q, true)
+				} else if d != first {
+					fail("Unmarshal(typed)", it, first, d)
+				}
+				if it&15 == 15 {
+					if b2, err2 := vopMarshal(in.pkt); err2 != nil || !bytes.Equal(b2, enc) {
+						fail("Marshal", it, hexString(enc), hexString(b2))
+					}
+				}
+				yield(it)
+			}
+		})
+		res.addBytes(enc)
+		res.addDump(first)
+	default:
+		vals := []rtcp.Packet{in.pkt}
+		if twin != nil {
+			vals = append(vals, twin)
+		}
+		type firsts struct {
+			enc  []byte
+			err  bool
+			size int
+			ssrc []uint32
+			str  string
+			dec  string
+			have [5]bool
+		}
+		first := make([]firsts, len(vals))
+		guarded(res, func() {
+			for it := 0; it < n && !res.incons; it++ {
+				vi := it % len(vals)
+				p, f := vals[vi], &first[vi]
+				switch c := (it / len(vals)) % 16; {
+				case c == 3:
+					sz := vopMarshalSize(p)
+					if !f.have[1] {
+						f.size, f.have[1] = sz, true
+					} else if sz != f.size {
+						fail("MarshalSize", it, fmt.Sprint(f.size), fmt.Sprint(sz))
+					}
+				case c == 7:
+					d := vopDestinationSSRC(p)
+					if !f.have[2] {
+						f.ssrc, f.have[2] = append([]uint32(nil), d...), true
+					} else if !u32Equal(d, f.ssrc) {
+						fail("DestinationSSRC", it, u32String(f.ssrc), u32String(d))
+					}
+				case c == 11 && it < 4096:
+					if st, ok := p.(fmt.Stringer); ok {
+						s := vopString(st)
+						if !f.have[3] {
+							f.str, f.have[3] = s, true
+						} else if s != f.str && stripAddrs(s) != stripAddrs(f.str) {
+							fail("String", it, f.str, s)
+						}
+					}
+				case c == 15 && f.have[0] && !f.err && len(f.enc) > 0:
+					q := newOfKind(dispatchKind(f.enc))
+					_ = vopUnmarshalTyped(q, f.enc)
+					d := dumpSem(q, false)
+					if !f.have[4] {
+						f.dec, f.have[4] = d, true
+						if kept == nil {
+							kept, keptDump = q, dumpSem(q, true)
+						}
+					} else if d != f.dec {
+						fail("Unmarshal(typed)", it, f.dec, d)
+					}
+				default:
+					b, err := vopMarshal(p)
+					if !f.have[0] {
+						f.enc, f.err, f.have[0] = append([]byte(nil), b...), err != nil, true
+					} else if (err != nil) != f.err || !bytes.Equal(b, f.enc) {
+						fail("Marshal", it, hexString(f.enc), hexString(b))
+					}
+				}
+				yield(it)
+			}
+		})
+		for vi := range first {
+			f := &first[vi]
+			res.addBytes(f.enc)
+			res.addInt(int64(f.size))
+			res.addU32(f.ssrc)
+			res.addStr(f.str)
+			res.addDump(f.dec)
+		}
+	}
+	if kept != nil && !res.incons {
+		if now := dumpSem(kept, true); now != keptDump {
+			res.incons = true
+			res.pre, res.post = "first packet decoded in this operation, as returned: "+keptDump, fmt.Sprintf("the same packet after %d further calls: ", n)+now
+		}
+	}
+	if reachesXR(in.pkt) {
+		res.postSem = dumpSem(in.pkt, false)
+		w.dirty[t] = xrPointers(in.pkt, w.dirty[t])
+	}
+}
+
+// volumeBackwards makes the distinct-values variant of opVolume walk its values in reverse order (set in the
+// history-free twin process of O8: the per-value results, hence their sum, must not depend on the order).
+var volumeBackwards bool
+
+func fnvBytes(h uint64, b []byte) uint64 {
+	for _, c := range b {
+		h ^= uint64(c)
+		h *= 0x100000001b3
+	}
+	return h
+}
